@@ -84,10 +84,14 @@ def run(rep, tier):
         c17.check_program(rep_, prog, rules=('R17a', 'R17c'))
         c12.check_first_in_path(rep_, prog)
         search.check_parity(rep_, prog)
+        search.check_pruning(rep_, prog)
+        c12.check_comparators(rep_, prog)
     run_rules(rep, tier, RULES, DOCS, extra=extra)
     rep.rule('R01e', 'parity propagation is an exclusive-or with "edge is signed" (trees, signed search, candidate test)', floor=3)
     search_positive(rep, ('R01e',))
     rep.rule('R12b', 'every visited tree node (root included) gets a first-in-path label; the candidate guards compare these labels', floor=1)
+    rep.rule('R12a', 'the lexicographic comparator behind the shortest-path trees is a strict order per rung (inconsistent trees make the isometric filter drop needed circuits)', floor=1)
+    rep.rule('R02i', 'pruning / meeting rules of the bidirectional search (a search that misses its meeting point reports "not found" and the phase emits nothing)', floor=5)
     rep.rule('R17a', 'SpVecGF2 operator+/operator* are merges whose shortcut guards are strict', floor=3)
     rep.rule('R17c', 'SpVecGF2 compound operators are safe under self-aliasing', floor=1)
     rep.note('NOT claimed: simplicity of each cycle, linear independence, m-n+c as the right count')
